@@ -14,6 +14,7 @@ import (
 
 	"github.com/WICG/webpackage/go/bundle/version"
 	"github.com/WICG/webpackage/go/internal/cbor"
+	"github.com/WICG/webpackage/go/internal/verifhook"
 	"github.com/WICG/webpackage/go/signedexchange/structuredheader"
 )
 
@@ -57,6 +58,7 @@ func (r Response) EncodeHeader() ([]byte, error) {
 	if err := enc.EncodeMap(mes); err != nil {
 		return nil, fmt.Errorf("bundle: Failed to encode response header: %v", err)
 	}
+	verifhook.Point("bundle.EncodeHeader.done")
 	return b.Bytes(), nil
 }
 
@@ -398,6 +400,7 @@ func (rs *responsesSection) addResponse(r Response) (int, int, error) {
 	if err != nil {
 		return 0, 0, err
 	}
+	verifhook.Point("bundle.addResponse.header")
 
 	enc := cbor.NewEncoder(&rs.buf)
 	if err := enc.EncodeArrayHeader(2); err != nil {
